@@ -105,7 +105,7 @@ class LRTDP(Plans):
         q_values = defaultdict(lambda : dict())
         policy_dict = {}
         for s in self.res.V.keys():
-            policy_dict[s] = self.policy(mdp, s)
+            policy_dict[s] = self._returned_action(mdp, s)
             for a in mdp.actions(s):
                 q_values[s][a] = self.Q(mdp, s, a)
         # A state can be labelled solved without ever being updated (so it is not in V).
@@ -113,7 +113,7 @@ class LRTDP(Plans):
         # the returned policy uses that same action rather than a separate look-ahead.
         for s in list(self.res.action_orders.keys()):
             if s not in policy_dict:
-                policy_dict[s] = self.policy(mdp, s)
+                policy_dict[s] = self._returned_action(mdp, s)
         res.Q = q_values
 
         @FunctionalPolicy
@@ -159,6 +159,8 @@ class LRTDP(Plans):
 
         # Keeping track of "labels": which states have been solved
         self.res.solved = defaultdict2(lambda s: False)
+        # The greedy action each solved state was verified with when it was labelled.
+        self.res.solved_actions = dict()
 
         for i in range(iterations):
             if all(self.res.solved[s] for s in mdp.initial_state_dist().support):
@@ -211,6 +213,7 @@ class LRTDP(Plans):
         if flag:
             for ns in closed:
                 self.res.solved[ns] = True
+                self.res.solved_actions[ns] = self.policy(mdp, ns)
         else:
             while closed:
                 s = closed.pop()
@@ -235,6 +238,17 @@ class LRTDP(Plans):
                 future = self.res.V[ns]
             q += prob * (mdp.reward(s, a, ns) + mdp.discount_rate*future)
         return q
+
+    def _returned_action(self, mdp, s):
+        '''
+        For a solved state, the action it was verified with. The values of other
+        actions can still change afterwards (their successors need not be solved),
+        and with an admissible but non-monotone heuristic they can rise above the
+        verified one, whose bound is the only one that was checked.
+        '''
+        if s in self.res.solved_actions:
+            return self.res.solved_actions[s]
+        return self.policy(mdp, s)
 
     def policy(self, mdp, s):
         if s in self.res.action_orders:
